@@ -294,6 +294,17 @@ def run(ck):
     # too short or carry an invalid address (R05.3/R05.6, shared with C05)
     from . import c05
     c05.receive(ck, agg, net.NetNode(ck, "rf24_network", "RF24Network"))
+    # _write() ends every transmission with `listen = True`: the radio layer's setters must not clear MAX_RT on the way, or the frame of a
+    # failed write() goes out (and is acknowledged) in front of the next one (R03.8, shared with C03)
+    from . import c03
+    from .radio import Radio
+    from ..tables import contract as _ct
+    c03.run_setters(Radio(ck), agg, _ct.SETTERS)
+    from . import c08
+    c08.events_kept(Radio(ck), agg)
+    # tx_timeout / route_timeout are the application's: re-addressing (_begin) must leave them alone (R04.6 frame condition)
+    from . import c04
+    c04.begin_structure(ck, agg, net.NetNode(ck, "rf24_network", "RF24Network"))
     agg.flush()
     ck.floor("R13.7", "timed re-send paths", n4, 2)
     ck.floor("R13.1", "message types", n1, 256)
